@@ -43,9 +43,9 @@ Proof. unfold injected, operator_clean. destruct (last_injected k (inject cfg));
 (* clause E on the model's output *)
 Lemma model_clause_E scrub cfg m client :
   (m = SkipAuth \/ operator_clean cfg k_connection) ->
-  cookies_guard cfg m client && negb (pairs_eqb (model_cookies scrub cfg m client) (want_cookies (cookie_name cfg) client)) = false.
+  cookies_guard cfg RProxy m client && negb (pairs_eqb (model_cookies scrub cfg m client) (want_cookies (cookie_name cfg) client)) = false.
 Proof.
-  intros G. destruct (cookies_guard cfg m client) eqn:Eg; [|reflexivity]. cbn [andb].
+  intros G. destruct (cookies_guard cfg RProxy m client) eqn:Eg; [|reflexivity]. cbn [andb].
   unfold cookies_guard in Eg. apply andb_true_iff in Eg as [E1 E2]. apply negb_true_iff in E1.
   unfold model_cookies. rewrite upstream_cookies_kept; [rewrite pairs_eqb_refl; reflexivity | | exact E1].
   destruct m as [s|]; [right | left; reflexivity].
@@ -80,7 +80,7 @@ Lemma monitor_accepts_model scrub cfg m client :
   (forall k, In k identity_keys -> client_conn_names client k = false) ->
   (scrub = true \/ forall k, In k identity_keys -> client_sent client k = false) ->
   let out := upstream scrub cfg m client in
-  holds cfg m client (h_get k_xfu out) (h_get k_xfe out) (h_get k_xfg out) (h_get k_xfat out) (h_get k_cookie out)
+  holds cfg RProxy m client (h_get k_xfu out) (h_get k_xfe out) (h_get k_xfg out) (h_get k_xfat out) (h_get k_cookie out)
         (model_cookies scrub cfg m client) = true.
 Proof.
   intros G1 G2 G3. unfold holds, monitor. cbv zeta.
@@ -104,7 +104,7 @@ Lemma monitor_accepts_repaired_model cfg m client :
   (m = SkipAuth \/ operator_clean cfg k_connection) ->
   (forall k, In k identity_keys -> client_conn_names client k = false) ->
   let out := upstream true cfg m client in
-  holds cfg m client (h_get k_xfu out) (h_get k_xfe out) (h_get k_xfg out) (h_get k_xfat out) (h_get k_cookie out)
+  holds cfg RProxy m client (h_get k_xfu out) (h_get k_xfe out) (h_get k_xfg out) (h_get k_xfat out) (h_get k_cookie out)
         (map name_value (read_cookies (h_get k_cookie out))) = true.
 Proof. intros G1 G2. apply (monitor_accepts_model true cfg m client G1 G2). left; reflexivity. Qed.
 
@@ -113,27 +113,27 @@ Lemma monitor_accepts_todays_model cfg m client :
   (forall k, In k identity_keys -> client_conn_names client k = false) ->
   (forall k, In k identity_keys -> client_sent client k = false) ->
   let out := upstream false cfg m client in
-  holds cfg m client (h_get k_xfu out) (h_get k_xfe out) (h_get k_xfg out) (h_get k_xfat out) (h_get k_cookie out)
+  holds cfg RProxy m client (h_get k_xfu out) (h_get k_xfe out) (h_get k_xfg out) (h_get k_xfat out) (h_get k_cookie out)
         (map name_value (read_cookies (h_get k_cookie out))) = true.
 Proof. intros G1 G2 G3. apply (monitor_accepts_model false cfg m client G1 G2). right; exact G3. Qed.
 
 (* and the monitor does reject the three witnesses (the findings are visible to it) *)
 Lemma monitor_rejects_witnesses :
   (let client := [(k_xfu, w_evil)] in let out := upstream false w_cfg SkipAuth client in
-   holds w_cfg SkipAuth client (h_get k_xfu out) (h_get k_xfe out) (h_get k_xfg out) (h_get k_xfat out)
+   holds w_cfg RProxy SkipAuth client (h_get k_xfu out) (h_get k_xfe out) (h_get k_xfg out) (h_get k_xfat out)
          (h_get k_cookie out) [] = false) /\
   (let client := [(k_xfat, w_evil)] in let out := upstream false w_cfg (Authenticated w_sess) client in
-   holds w_cfg (Authenticated w_sess) client (h_get k_xfu out) (h_get k_xfe out) (h_get k_xfg out) (h_get k_xfat out)
+   holds w_cfg RProxy (Authenticated w_sess) client (h_get k_xfu out) (h_get k_xfe out) (h_get k_xfg out) (h_get k_xfat out)
          (h_get k_cookie out) [] = false) /\
   (let client := [(k_connection, k_xfu)] in let out := upstream false w_cfg (Authenticated w_sess) client in
-   holds w_cfg (Authenticated w_sess) client (h_get k_xfu out) (h_get k_xfe out) (h_get k_xfg out) (h_get k_xfat out)
+   holds w_cfg RProxy (Authenticated w_sess) client (h_get k_xfu out) (h_get k_xfe out) (h_get k_xfg out) (h_get k_xfat out)
          (h_get k_cookie out) [] = false).
 Proof. repeat split; vm_compute; reflexivity. Qed.
 
 (* when a refresh / revalidation is due: on the model's own output the mode the monitor judges by
    (built from the re-saved session) is the mode the model computed with *)
 Lemma observed_mode_of_model allowed d m :
-  observed_mode (model_saved allowed d m) m = model_mode allowed d m.
+  observed_mode (model_saved allowed d RProxy m) m = model_mode allowed d m.
 Proof. destruct m as [s|]; [|reflexivity]. destruct d; reflexivity. Qed.
 
 Lemma monitor_accepts_model_due scrub cfg m allowed d client :
@@ -141,7 +141,7 @@ Lemma monitor_accepts_model_due scrub cfg m allowed d client :
   (forall k, In k identity_keys -> client_conn_names client k = false) ->
   (scrub = true \/ forall k, In k identity_keys -> client_sent client k = false) ->
   let out := upstream scrub cfg (model_mode allowed d m) client in
-  holds cfg (observed_mode (model_saved allowed d m) m) client
+  holds cfg RProxy (observed_mode (model_saved allowed d RProxy m) m) client
         (h_get k_xfu out) (h_get k_xfe out) (h_get k_xfg out) (h_get k_xfat out) (h_get k_cookie out)
         (map name_value (read_cookies (h_get k_cookie out))) = true.
 Proof.
@@ -156,6 +156,98 @@ Lemma monitor_rejects_stale_assertion :
   let s := {| s_user := [98]; s_email := [98;64;99]; s_groups := [[116]; [101]]; s_token := [49] |} in
   let d := RefreshDue [50] [[116]; [111]; [120]] in
   let stale := upstream true w_cfg (Authenticated s) [] in
-  holds w_cfg (observed_mode (resaved_session allowed s d) (Authenticated s)) []
+  holds w_cfg RProxy (observed_mode (resaved_session allowed s d) (Authenticated s)) []
         (h_get k_xfu stale) (h_get k_xfe stale) (h_get k_xfg stale) (h_get k_xfat stale) (h_get k_cookie stale) [] = false.
+Proof. vm_compute. reflexivity. Qed.
+
+(* ---- every route that ends in the reverse proxy, for the code with the scrub step ---- *)
+
+Lemma inject_applied_ran r m : inject_applied r m = inject_ran r m.
+Proof. destruct r, m; reflexivity. Qed.
+
+Lemma model_clause_D_r cfg r m client :
+  existsb (fun nv => str_eqb (fst nv) (cookie_name cfg))
+          (map name_value (read_cookies (h_get k_cookie (upstream_r true cfg r m client)))) ||
+  existsb (fun c => str_eqb (c_name c) (cookie_name cfg)) (read_cookies (h_get k_cookie (upstream_r true cfg r m client))) = false.
+Proof.
+  apply orb_false_iff. split; apply existsb_false_intro.
+  - intros nv Hin. apply in_map_iff in Hin as [c [<- Hc]].
+    apply str_eqb_neq. cbn. apply (upstream_r_cookie_stripped true cfg r m client c Hc).
+  - intros c Hc. apply str_eqb_neq. apply (upstream_r_cookie_stripped true cfg r m client c Hc).
+Qed.
+
+Lemma model_clause_E_r cfg r m client :
+  (inject_ran r m = false \/ operator_clean cfg k_connection) ->
+  cookies_guard cfg r m client &&
+  negb (pairs_eqb (map name_value (read_cookies (h_get k_cookie (upstream_r true cfg r m client))))
+                  (want_cookies (cookie_name cfg) client)) = false.
+Proof.
+  intros G. destruct (cookies_guard cfg r m client) eqn:Eg; [|reflexivity]. cbn [andb].
+  unfold cookies_guard in Eg. apply andb_true_iff in Eg as [E1 E2]. apply negb_true_iff in E1.
+  rewrite upstream_r_cookies_kept; [rewrite pairs_eqb_refl; reflexivity | | exact E1].
+  rewrite inject_applied_ran in E2. destruct (inject_ran r m) eqn:Er; [right | left; reflexivity].
+  cbn [negb orb] in E2. split; [apply injected_nil; exact E2 | destruct G as [G|G]; [discriminate | exact G]].
+Qed.
+
+Lemma monitor_accepts_model_routes cfg r m client :
+  (inject_ran r m = false \/ operator_clean cfg k_connection) ->
+  (forall k, In k identity_keys -> client_conn_names client k = false) ->
+  let out := upstream_r true cfg r m client in
+  holds cfg r m client (h_get k_xfu out) (h_get k_xfe out) (h_get k_xfg out) (h_get k_xfat out) (h_get k_cookie out)
+        (map name_value (read_cookies (h_get k_cookie out))) = true.
+Proof.
+  intros G1 G2. unfold holds, monitor. cbv zeta.
+  pose proof (model_clause_D_r cfg r m client) as HD.
+  pose proof (model_clause_E_r cfg r m client G1) as HE.
+  assert (Hget: forall k, In k identity_keys ->
+            h_get k (upstream_r true cfg r m client) = h_get k (to_reverse_proxy_r true cfg r m client)).
+  { intros k Hk. rewrite upstream_r_get by exact G1. rewrite (G2 k Hk).
+    assert (mem_str k hop_headers = false) as ->; [|reflexivity].
+    cbn in Hk. destruct Hk as [<-|[<-|[<-|[<-|[]]]]]; reflexivity. }
+  destruct m as [s|].
+  - cbn [v_fail]. rewrite HD, HE.
+    rewrite (Hget k_xfu) by (cbn; auto). rewrite (Hget k_xfe) by (cbn; auto).
+    rewrite (Hget k_xfg) by (cbn; auto). rewrite (Hget k_xfat) by (cbn; auto 6).
+    unfold to_reverse_proxy_r.
+    destruct (chain_auth_headers true cfg s (route_pre cfg r (mk_headers client))) as [Hu [He Hg]].
+    rewrite Hu, He, Hg, chain_token.
+    unfold want_user, want_email, want_groups. rewrite !strs_eqb_refl. reflexivity.
+  - cbn [v_fail]. rewrite HD, HE.
+    rewrite (Hget k_xfu) by (cbn; auto). rewrite (Hget k_xfe) by (cbn; auto).
+    rewrite (Hget k_xfg) by (cbn; auto). rewrite (Hget k_xfat) by (cbn; auto 6).
+    unfold to_reverse_proxy_r. rewrite !chain_skip by (cbn; auto 6). reflexivity.
+Qed.
+
+Lemma observed_mode_of_model_r allowed d r m :
+  observed_mode (model_saved allowed d r m) m = model_mode allowed d m.
+Proof. destruct m as [s|]; [|reflexivity]. destruct d; reflexivity. Qed.
+
+Lemma inject_ran_model allowed d r m : inject_ran (model_route allowed d r) (model_mode allowed d m) = inject_ran r m.
+Proof. destruct r, m; reflexivity. Qed.
+
+(* the form [judge] uses: routes, due refresh / revalidation, monitor judging by the re-saved session *)
+Lemma monitor_accepts_model_routes_due cfg r m allowed d client :
+  (inject_ran r m = false \/ operator_clean cfg k_connection) ->
+  (forall k, In k identity_keys -> client_conn_names client k = false) ->
+  let out := upstream_r true cfg (model_route allowed d r) (model_mode allowed d m) client in
+  holds cfg (model_route allowed d r) (observed_mode (model_saved allowed d r m) m) client
+        (h_get k_xfu out) (h_get k_xfe out) (h_get k_xfg out) (h_get k_xfat out) (h_get k_cookie out)
+        (map name_value (read_cookies (h_get k_cookie out))) = true.
+Proof.
+  intros G1 G2. rewrite observed_mode_of_model_r.
+  apply monitor_accepts_model_routes; [rewrite inject_ran_model; exact G1 | exact G2].
+Qed.
+
+(* the monitor's route argument only matters through [inject_applied]: the presented and the
+   asserted favicon session give the same verdict *)
+Lemma holds_route_irrelevant cfg allowed d r m client ou oe og ot ol oc :
+  holds cfg (model_route allowed d r) m client ou oe og ot ol oc = holds cfg r m client ou oe og ot ol oc.
+Proof. destruct r; reflexivity. Qed.
+
+(* the monitor sees a Favicon that hands the request to the upstream without going through Proxy *)
+Lemma monitor_rejects_favicon_shortcut :
+  let client := [(lower_ascii k_xfat, w_evil)] in
+  let leaked := delete_cookie (cookie_name w_cfg) (route_pre w_cfg (RFavicon w_sess) (mk_headers client)) in
+  holds w_cfg (RFavicon w_sess) (Authenticated w_sess) client
+        (h_get k_xfu leaked) (h_get k_xfe leaked) (h_get k_xfg leaked) (h_get k_xfat leaked) (h_get k_cookie leaked) [] = false.
 Proof. vm_compute. reflexivity. Qed.
